@@ -52,6 +52,8 @@ func (d *c17DetReader) Read(b []byte) (int, error) {
 
 var _ io.Reader = (*c17DetReader)(nil)
 
+var c17Debug = vfEnvInt("C17_DEBUG", 0) != 0
+
 func c17Top32(b []byte) uint32 {
 	h := sha256.Sum256(b)
 	return binary.BigEndian.Uint32(h[:4])
@@ -123,6 +125,13 @@ func (e *c17Env) GetClosestPeers(ctx context.Context, k string) ([]peer.ID, erro
 	sorted := kb.SortClosestPeers(sw, kb.ConvertKey(k))
 	if len(sorted) > kk {
 		sorted = sorted[:kk]
+	}
+	if c17Debug {
+		ids := make([]string, len(sorted))
+		for i, p := range sorted {
+			ids[i] = fmt.Sprintf("%08x", c17Top32([]byte(p)))
+		}
+		fmt.Printf("  [%d us] gcp(%08x) -> %v\n", e.now(), binary.BigEndian.Uint32(kb.ConvertKey(k)[:4]), ids)
 	}
 	err := c17Sleep(ctx, lat)
 	e.mu.Lock()
